@@ -7,6 +7,8 @@
 #include <cstdint>
 #include <map>
 #include <string>
+#include <type_traits>
+#include <vector>
 
 namespace verif
 {
@@ -173,6 +175,64 @@ struct alignas(Align) Blob
     friend bool operator<(const Blob& a, const Blob& c) { return a.b[0] < c.b[0]; }
 };
 
+// A handle type: trivially MOVE constructible and trivially destructible, but with a user-provided (deep) copy
+// constructor - the value lives in a pool cell, the object holds the cell's index.  Relocating such an object bytewise
+// is fine; COPYING it bytewise makes two live objects share one cell.  decode() reports SHARED_VAL when, within one
+// observation pass, the same cell is reached from two different addresses (Cntgs.tla: copies are independent).
+static constexpr int SHARED_VAL = -7;
+struct CellPool
+{
+    std::vector<int> val;
+    std::map<int, const void*> seen;
+    void begin_pass() { seen.clear(); }
+};
+inline CellPool& cell_pool()
+{
+    static CellPool p;
+    return p;
+}
+template <int Tag = 0>
+struct Cell
+{
+    int idx;
+    static int fresh(int v)
+    {
+        cell_pool().val.push_back(v);
+        return static_cast<int>(cell_pool().val.size()) - 1;
+    }
+    explicit Cell(int v = 1) : idx(fresh(v)) {}
+    Cell(const Cell& o) : idx(fresh(cell_pool().val[static_cast<std::size_t>(o.idx)])) {}
+    Cell(Cell&&) = default;
+    Cell& operator=(const Cell& o)
+    {
+        cell_pool().val[static_cast<std::size_t>(idx)] = cell_pool().val[static_cast<std::size_t>(o.idx)];
+        return *this;
+    }
+    Cell& operator=(Cell&& o) noexcept
+    {
+        cell_pool().val[static_cast<std::size_t>(idx)] = cell_pool().val[static_cast<std::size_t>(o.idx)];
+        return *this;
+    }
+    ~Cell() = default;
+    int get() const
+    {
+        if (idx < 0 || static_cast<std::size_t>(idx) >= cell_pool().val.size()) return BADBLOB_VAL;
+        auto r = cell_pool().seen.emplace(idx, this);
+        if (!r.second && r.first->second != this) return SHARED_VAL;
+        return cell_pool().val[static_cast<std::size_t>(idx)];
+    }
+    int raw() const { return idx >= 0 && static_cast<std::size_t>(idx) < cell_pool().val.size() ? cell_pool().val[static_cast<std::size_t>(idx)] : BADBLOB_VAL; }
+    friend bool operator==(const Cell& a, const Cell& c) { return a.raw() == c.raw(); }
+    friend bool operator!=(const Cell& a, const Cell& c) { return !(a == c); }
+    friend bool operator<(const Cell& a, const Cell& c) { return a.raw() < c.raw(); }
+};
+static_assert(std::is_trivially_move_constructible_v<Cell<>> && !std::is_trivially_copy_constructible_v<Cell<>> &&
+              std::is_trivially_destructible_v<Cell<>>);
+template <class T>
+inline constexpr bool IS_CELL = false;
+template <int Tag>
+inline constexpr bool IS_CELL<Cell<Tag>> = true;
+
 template <class T>
 inline constexpr bool IS_BLOB = false;
 template <int N, int A>
@@ -217,6 +277,14 @@ struct VT<Blob<N, A>>
     static Blob<N, A> make(int v) { return Blob<N, A>(v); }
     static Blob<N, A> make_digit(int d) { return Blob<N, A>(d); }
     static int decode(const Blob<N, A>& x) { return x.get(); }
+};
+template <int Tag>
+struct VT<Cell<Tag>>
+{
+    static constexpr bool tracked = false;
+    static Cell<Tag> make(int v) { return Cell<Tag>(v); }
+    static Cell<Tag> make_digit(int d) { return Cell<Tag>(d); }
+    static int decode(const Cell<Tag>& x) { return x.get(); }
 };
 template <>
 struct VT<std::string>
